@@ -13,7 +13,7 @@ FUNCTIONS = [("pandapower.pf.run_newton_raphson_pf", "_run_ac_pf_with_qlims_enfo
              ("pandapower.build_gen", "add_q_constraints"), ("pandapower.build_gen", "add_p_constraints"),
              ("pandapower.build_bus", "_calc_pq_elements_and_add_on_ppc"), ("pandapower.results_bus", "write_voltage_dependend_load_results"),
              ("pandapower.results_bus", "write_pq_results_to_element"), ("pandapower.results_bus", "_get_shunt_results"),
-             ("pandapower.pypower.pfsoln", "_update_q")]
+             ("pandapower.pypower.pfsoln", "_update_q"), ("pandapower.powerflow", "_bypass_pf_and_set_results")]
 STUBS = ["q-limit loop: _run_ac_pf_without_qlims_enforced / ppci_to_pfsoln -> contract stubs (first solve: arbitrary symbolic Q, later solves: regulating gens inside their limits)", "Newton never changes |V| at reference and PV buses nor the angle at the reference bus (generic solver contract): the setpoint obligations "
          "are stated on the ppc rows Newton starts from"]
 ASSUMPTIONS = ["setpoints and powers symbolic within physical ranges; q limits with min < max; scaling in [0.1,2]",
@@ -350,6 +350,67 @@ def make_conflicting_setpoints(cva):
             ctx.true("equal_set_points_are_accepted", not refused)
     return fn
 
+_AR = {}
+
+
+def _allref_net():
+    if "n" not in _AR:
+        net = pp.create_empty_network(sn_mva=10.)
+        b0, b1 = pp.create_bus(net, 20.), pp.create_bus(net, 20.)
+        pp.create_ext_grid(net, b0, vm_pu=1.02, va_degree=5.)
+        pp.create_ext_grid(net, b1, vm_pu=0.99, va_degree=-3.)
+        pp.create_line_from_parameters(net, b0, b1, 2., 0.1, 0.3, 10., 1.)
+        pp.create_load(net, b1, 1., 0.3)
+        pp.runpp(net, numba=False, lightsim2grid=False, calculate_voltage_angles=True)
+        _AR["n"] = net
+    return _AR["n"]
+
+
+def make_all_reference_buses():
+    """every bus carries an ext_grid: the iteration is skipped and the results come straight from the set points (the real
+    _bypass_pf_and_set_results with the real pfsoln); both buses must report their ext_grid's magnitude AND angle, and the line flow must be the
+    one of those two complex voltages"""
+    def fn(ctx):
+        import cmath
+        from symx import core
+        polar = core.polar if ctx.symbolic else (lambda m, a: cmath.rect(float(m), float(np.deg2rad(float(a)))))
+        if ctx.symbolic:
+            ctx.memo["__link_tanhalf__"] = True
+        pf = ctx.load("pandapower.powerflow")
+        mY = ctx.load("pandapower.pypower.makeYbus")
+        ps = ctx.load("pandapower.pypower.pfsoln")
+        pv_ = ctx.load("pandapower.pf.ppci_variables")
+        from pandapower.pypower.idx_bus import VM, VA
+        from pandapower.pypower.idx_gen import VG
+        from pandapower.pypower.idx_brch import PF, QF
+        net = _allref_net()
+        if "ppci" not in _AR:
+            from pandapower.pd2ppc import _pd2ppc
+            n2 = copy.deepcopy(net)
+            n2._options["recycle"] = None
+            _AR["ppci"] = _pd2ppc(n2)[1]
+        ppci = copy.deepcopy(_AR["ppci"])
+        vm = [ctx.var(f"ext_grid{b}_vm_pu", 0.9, 1.1) for b in range(2)]
+        va = [ctx.var(f"ext_grid{b}_va_degree", -30., 30.) for b in range(2)]
+        want = [polar(vm[b], va[b]) for b in range(2)]
+        bus, gen, branch = ctx.obj(ppci["bus"]), ctx.obj(ppci["gen"]), ctx.obj(ppci["branch"].real)
+        for b in range(2):
+            bus[b, VM], bus[b, VA], gen[b, VG] = vm[b], va[b], vm[b]
+        ppci["bus"], ppci["gen"], ppci["branch"] = bus, gen, branch
+        Ybus, Yf, Yt = mY.makeYbus(ppci["baseMVA"], bus, branch)
+        with patched(pf, makeYbus_pypower=mY.makeYbus, pfsoln_pypower=ps.pfsoln, _get_pf_variables_from_ppci=pv_._get_pf_variables_from_ppci):
+            res = pf._bypass_pf_and_set_results(ppci, {})
+        for b in range(2):
+            got = polar(res["bus"][b, VM], res["bus"][b, VA])
+            ctx.close(f"bus{b}_voltage_is_the_ext_grid_set_point/re", got.real, want[b].real, 1e-9)
+            ctx.close(f"bus{b}_voltage_is_the_ext_grid_set_point/im", got.imag, want[b].imag, 1e-9)
+            ctx.close(f"bus{b}_magnitude_is_the_ext_grid_set_point", res["bus"][b, VM], vm[b], 1e-9)
+        A = Yf.toarray() if hasattr(Yf, "toarray") else np.asarray(Yf)
+        Sf = want[0] * (A[0, 0] * want[0] + A[0, 1] * want[1]).conjugate() * ppci["baseMVA"]
+        ctx.close("line_flow_is_the_one_between_the_two_set_point_voltages/p", res["branch"][0, PF], Sf.real, 1e-9)
+        ctx.close("line_flow_is_the_one_between_the_two_set_point_voltages/q", res["branch"][0, QF], Sf.imag, 1e-9)
+    return fn
+
 
 def instances(tier):
     return [Inst("qlim_loop_all_at_once", make_qlim_loop(True), nvars=24, samples=3, max_paths=3000, meta=dict(part="enforce_q_lims loop", enforce_q_lims=True)),
@@ -358,6 +419,7 @@ def instances(tier):
             Inst("pfsoln_contract_numba", make_pfsoln_contract("numba"), nvars=40, samples=2, meta=dict(part="enforce_q_lims loop: contract of pfsoln", variant="numba")),
             Inst("conflicting_setpoints_cva1", make_conflicting_setpoints(True), nvars=8, samples=4, meta=dict(part="setpoints", calculate_voltage_angles=True)),
             Inst("conflicting_setpoints_cva0", make_conflicting_setpoints(False), nvars=8, samples=4, meta=dict(part="setpoints", calculate_voltage_angles=False)),
+            Inst("all_buses_are_reference_buses", make_all_reference_buses(), nvars=8, samples=3, meta=dict(part="setpoints", variant="iteration bypassed")),
             Inst("setpoints", make_setpoints(), nvars=40, samples=3, meta=dict(part="setpoints")),
             Inst("laws_vdl1", make_laws(True), nvars=48, samples=2, raises=(ValueError,), meta=dict(part="laws", voltage_depend_loads=True)),
             Inst("laws_vdl0", make_laws(False), nvars=48, samples=2, raises=(ValueError,), meta=dict(part="laws", voltage_depend_loads=False)),
